@@ -242,6 +242,7 @@ package syncer
 //@   assert at call sendFunc: txn_whole [C09]: !inTransaction || txnStatus == txnStatusCommit
 //@   assert at call sendFunc: cp_monotone [C07]: shouldUpdateCP ==> lastOffset >= tCpHigh
 //@   assert at call sendFunc: queue_clean [C09]: queueClean(cmdQueue)
+//@   assert at call sendFunc: txn_bracketed [C02 C09]: transactionMode && !shouldInTransaction ==> len(cmdQueue) == 1 && cmdQueue[0].Cmd == "ping"
 //@   loop 1:
 //@     invariant high: tCpHigh <= lastOffset && cpArmed == 0
 //@     invariant status: txnStatus >= txnStatusNo && txnStatus <= txnStatusCommit
@@ -345,6 +346,8 @@ package syncer
 //@   set got = got + 1 after recv errChan
 //@   set nonNil = nonNil + ite(recv != nil, 1, 0) after recv errChan
 //@   assert at call setCheckpoint: all_workers_succeeded: nonNil == 0 && got == cap(errChan)
+//@   loop 2:
+//@     invariant nothing_collected: got == 0 && nonNil == 0
 //@   loop 3:
 //@     invariant collected: got == i#3 && i#3 <= cap(errChan) && nonNil >= 0 && (len(errs) == 0 <==> nonNil == 0) && len(errs) >= 0
 
